@@ -174,6 +174,10 @@ func runTreeProp(c *Ctx, which string) {
 		one(idx, kind, doc)
 		return true
 	})
+	// containers nested 15..300 deep (a bound on nesting or on traversal depth would show here), in memory and streamed
+	for i, d := range deepNestDocs() {
+		one(i*2, "deep-nesting", d)
+	}
 	// exhaustive small scope over the characters the span bookkeeping distinguishes
 	alpha := []string{"a", "*", "_", "[", "]", "(", ")", "`", "<", ">", "\\", "\n", " ", "#", "-", "&", ";", "!", "é"}
 	max := 4
